@@ -1111,6 +1111,12 @@ func (c *Ctx) diatonicTables(fnName string) (major, minor []string, pos token.Po
 					c.diatonicPaired = map[string]bool{}
 				}
 				c.diatonicPaired[fnName] = *okMj && *okMn
+				// ... in every supported key (a respelling of roots touches only the keys that hold E#, B#, Cb or Fb)
+				for _, ks := range requiredKeys() {
+					if _, okK := c.diatonicThroughConstructor(api, ks); okK != nil && !*okK {
+						c.diatonicPaired[fnName] = false
+					}
+				}
 				return mj, mn, api.Pos(), nil
 			}
 		}
@@ -2483,7 +2489,14 @@ func (c *Ctx) diatonicThroughConstructor(api *ssa.Function, key string) ([]strin
 	}
 	names := c.enumConsts("note", "Name")
 	accs := c.enumConsts("op", "Accidental")
-	kv := fval{fields: map[string]fval{"Name": {k: constant.MakeInt64(names[key[:1]])}, "Accidental": {k: constant.MakeInt64(accs["Natural"])}, "Minor": {k: constant.MakeBool(strings.HasSuffix(key, "m"))}}}
+	accName := "Natural"
+	switch strings.TrimSuffix(key[1:], "m") {
+	case "#":
+		accName = "Sharp"
+	case "b":
+		accName = "Flat"
+	}
+	kv := fval{fields: map[string]fval{"Name": {k: constant.MakeInt64(names[key[:1]])}, "Accidental": {k: constant.MakeInt64(accs[accName])}, "Minor": {k: constant.MakeBool(strings.HasSuffix(key, "m"))}}}
 	fd := c.newFolder()
 	fd.maxSteps = 40000
 	fd.maxDepth = 10
@@ -2492,6 +2505,7 @@ func (c *Ctx) diatonicThroughConstructor(api *ssa.Function, key string) ([]strin
 		return nil, nil
 	}
 	heap := fd.heap
+	scaleBefore := fd.describeDeep(sr.tuple[0], 0)
 	fd.steps = 0
 	cr, err := fd.foldCallEnv(ctor, []fval{sr.tuple[0]}, nil, heap)
 	if err != nil || !cr.known() {
@@ -2507,6 +2521,9 @@ func (c *Ctx) diatonicThroughConstructor(api *ssa.Function, key string) ([]strin
 	fd.steps = 0
 	r, err := fd.foldCallEnv(api, []fval{recv}, nil, heap)
 	if err != nil || r.fields == nil {
+		if os.Getenv("CRDCHECK_DEBUG") != "" {
+			fmt.Fprintf(os.Stderr, "diatonicThroughConstructor(%s, %s): does not fold: %v %s\n", fname(api), key, err, r.String())
+		}
 		return nil, nil
 	}
 	scale := fd.deref(sr.tuple[0])
@@ -2515,6 +2532,10 @@ func (c *Ctx) diatonicThroughConstructor(api *ssa.Function, key string) ([]strin
 	}
 	var out []string
 	paired := true
+	// ... of the scale as NewScale made it: building the chords does not rewrite the scale's notes
+	if before := scaleBefore; before != fd.describeDeep(sr.tuple[0], 0) {
+		paired = false
+	}
 	for i := 0; i < 7; i++ {
 		e, ok := r.fields[fmt.Sprintf("#%d", i)]
 		if !ok || e.fields == nil || e.fields["Name"].k == nil || e.fields["Name"].k.Kind() != constant.String {
@@ -2540,6 +2561,30 @@ type generatedAttr struct {
 
 // generateAttributesByFolding folds chord.GenerateAttributes on the bound of the go:generate directive and returns the
 // attributes it gives (name, and the quality and number of the interval each carries).
+// generateAttributesAtBounds: GenerateAttributes(0) and (1) - what `crd gen attr -d 0` and `-d 1` ask for - give an
+// empty list and do not panic ("" when fine or when nothing can be said).
+func (c *Ctx) generateAttributesAtBounds() string {
+	fn := c.fn("chord", "GenerateAttributes")
+	if fn == nil || len(fn.Params) != 1 {
+		return ""
+	}
+	for _, d := range []int64{0, 1} {
+		fd := c.newFolder()
+		fd.maxSteps = 100000
+		fd.maxDepth = 10
+		r, err := fd.foldCall(fn, []fval{{k: constant.MakeInt64(d), t: fn.Params[0].Type()}})
+		if err != nil && strings.Contains(err.Error(), "panics: ") {
+			return fmt.Sprintf("GenerateAttributes(%d) %s: `crd gen attr -d %d` crashes instead of printing an empty list", d, err.Error()[strings.Index(err.Error(), "panics: "):], d)
+		}
+		if err == nil {
+			if l, ok := r.cv.(*ListV); ok && len(l.Elems) != 0 && d == 0 {
+				return fmt.Sprintf("GenerateAttributes(0) gives %d attributes", len(l.Elems))
+			}
+		}
+	}
+	return ""
+}
+
 func (c *Ctx) generateAttributesByFolding(maxD int64) ([]generatedAttr, bool) {
 	fn := c.fn("chord", "GenerateAttributes")
 	if fn == nil || len(fn.Params) != 1 {
@@ -2555,6 +2600,20 @@ func (c *Ctx) generateAttributesByFolding(maxD int64) ([]generatedAttr, bool) {
 	fd.maxDepth = 10
 	r, err := fd.foldCall(fn, []fval{{k: constant.MakeInt64(maxD), t: fn.Params[0].Type()}})
 	l, isList := r.cv.(*ListV)
+	if err == nil && !isList && r.sl != nil {
+		// a slice over the fold's memory (preallocated with make): read its elements
+		if es, ok := fd.sliceElems(r, fd.heap); ok {
+			l, isList = &ListV{}, true
+			for _, e := range es {
+				ev, ok := toVal(e, fn.Signature.Results().At(0).Type().Underlying().(*types.Slice).Elem(), c)
+				if !ok {
+					isList = false
+					break
+				}
+				l.Elems = append(l.Elems, ev)
+			}
+		}
+	}
 	if err != nil || !isList {
 		if os.Getenv("CRDCHECK_DEBUG") != "" {
 			fmt.Fprintf(os.Stderr, "generateAttributesByFolding: %v %s\n", err, r.String())
